@@ -29,7 +29,7 @@ func main() {
 		Rule: "SEQ on the real contract/system + contract/name code. A sequence is a list of steps (dt, account, op) over 3 funded accounts A,B,C (A and B share a voting-power bucket): " +
 			"dt=0 puts the op into the currently open block (at most K ops per block), dt>0 closes the block (stage + Update + Commit of the state DB + system.CommitParams) and opens the next one dt blocks later; the first block is block 1 and dt is taken from {D, D-1, 1} with D=86400, so block numbers 1, 2, D, D+1, 2D-1, 2D, 2D+1, ... on both sides of every lock period are reached. " +
 			"Per-account ops (full alphabet): stake(min | min+1 aer | 2*min), unstake(part | all | stake+1), voteBP(all 8 subsets of {T0,T1,Y}; T0/T1 are twin peer ids that differ only in the key parity byte), voteDAO(BPCOUNT 2 | BPCOUNT 3 | STAKINGMIN 2*min | NAMEPRICE 2 aergo), createName(price | price-1, two spellings of one registry key), updateName(to next | previous account), transfer(min to the next account); the core alphabet is a 14-op subset (listed in notes). " +
-			"Passes, each exhaustive for its alphabet and depth d: quick = core-d4 (core alphabet, d=4, K=2, dt=D anywhere and dt=D-1 only for the last step); thorough = core-d5 (core alphabet, d=5, K=2, dt=D anywhere, D-1 only last) and full-d4 (full alphabet, d=4, K=3, dt in {D, D-1} anywhere, dt=1 only last). " +
+			"Passes, each exhaustive for its alphabet and depth d: quick = core-d4 (core alphabet, d=4, K=2, dt=D anywhere and dt=D-1 only for the last step) plus core-d3-from-2-stakers and core-d3-from-3-stakers (same alphabet, d=3 counted from a non-initial start state in which A and C, resp. A, B and C, already hold a stake); thorough = core-d5 (core alphabet, d=5, K=2, dt=D anywhere, D-1 only last) and full-d4 (full alphabet, d=4, K=3, dt in {D, D-1} anywhere, dt=1 only last). " +
 			"Enumerated: every sequence of at most d steps in which every step but the last is accepted by the real code; a refused step is judged as a leaf (it is rolled back like chain.executeTx does, and the next boundary must show no trace of it). " +
 			"Oracle after every op: accepted/refused exactly as the model says (lock period, minimum, balance, nothing staked, ownership, price). Oracle at every block boundary, on the state read back through a fresh StateDB at the committed root: recorded total = sum of stakes = balance of aergo.system; every listed candidate's tally = sum of the recorded voting amounts of the accounts whose recorded ballot names it, no voter missing; no recorded voting amount above the stake; every vote list sorted by tally and, among equal tallies, by the documented tie-break key, which must order distinct candidates (else F8); in-memory voting power rank (members in order, id->power table, ordered buckets, total) = the rank InitVotingPowerRank rebuilds from the persisted rows; staking records, balances (unstake returns exactly the amount, name price moved to aergo.name), ballots and the name registry equal the model. Since all interleavings of the accounts are enumerated and each is compared with a function of the tallies alone, the ranking is checked to be independent of the order in which votes were issued. " +
 			"Abandoned-block variant (signature F10): for steps at depth <= 2, the block holding a vote/unstake is additionally dropped instead of committed and memory is compared with the rebuilt rank. " +
@@ -136,11 +136,17 @@ func run(ctx *xplor.Ctx) {
 	for i, cfg := range passes {
 		e := newExplorer(ctx, cfg)
 		e.deadline = workerStart.Add(slice * time.Duration(i+1) / time.Duration(len(passes)))
+		if ctx.Tier != "thorough" {
+			e.deadline = workerStart.Add(slice)
+		}
 		e.root()
 		done := "complete"
 		if e.stop {
 			done = "cut short by the deadline"
 			ctx.Incomplete("pass " + cfg.name + " did not finish within the time budget")
+		}
+		if len(cfg.prefix) > 0 {
+			ctx.Note(fmt.Sprintf("pass %s starts from the state after: %s", cfg.name, pathText(cfg.prefix)))
 		}
 		ctx.Note(fmt.Sprintf("pass %s (%s): depth=%d opsPerBlock<=%d deltas=%v (+%v for the last step only) ops/account=%d %v", cfg.name, ctx.Tier, cfg.depth, cfg.maxBlockOps, cfg.deltas, cfg.lastDeltas, len(cfg.ops), opNames(cfg.ops)))
 		ctx.Count("pass_"+cfg.name+"_workers_"+strings.ReplaceAll(done, " ", "_"), 1)
